@@ -347,7 +347,13 @@ def expansion_record(tree, H):
         ev["eqdeps"] = bool([(d.name, str(d.version)) for d in rx["dependencies"]] ==
                             [(d.name, str(d.version)) for d in re_["dependencies"]])
         if not isinstance(x, H.HTMLDocument):
-            ev["eqdoc"] = bool(H.HTMLDocument(x).render()["html"] == H.HTMLDocument(xe).render()["html"])
+            def same_doc(wrap):
+                a, b = H.HTMLDocument(wrap(x), lang="en").render(), H.HTMLDocument(wrap(xe), lang="en").render()
+                return a["html"] == b["html"] and [(d.name, str(d.version)) for d in a["dependencies"]] == \
+                    [(d.name, str(d.version)) for d in b["dependencies"]]
+            # as a fragment, as the sole <body>, inside a sole <html> (the three shapes HTMLDocument distinguishes)
+            ev["eqdoc"] = bool(same_doc(lambda t: t) and same_doc(lambda t: H.tags.body(t, id="b"))
+                               and same_doc(lambda t: H.tags.html(H.tags.head(H.tags.title("t")), H.tags.body(t))))
         else:
             ev["eqdoc"] = True
     except Exception as ex:  # noqa
